@@ -110,3 +110,49 @@ pub fn record_root_lp_solution(s: Option<&crate::lpsolver::LpSolution>) {
 pub fn record_root_lp_vars_after(v: &crate::variables::Vars) {
     ROOT_LP_RECORD.with(|c| if let Some(r) = c.borrow_mut().as_mut() { r.vars_after = Some(v.clone()); });
 }
+
+// H10: recorder for the primal simplex (`lpsolver/simplex_primal.rs`). Off by default; while
+// switched on it keeps, in program order, one event per basis the solver looks at:
+// phase 0 = the slack basis tested at the start of `phase_one`, 1 = head of a Phase I iteration,
+// 3 = the basis right after a Phase I pivot (the "objective already zero?" test), 2 = head of a
+// Phase II iteration. Each event carries the basis as the code holds it (`basic`, `nonbasic`, in
+// order) and the floats the decisions of that iteration are taken on: the basic solution by basis
+// position, the reduced costs by non-basic position, the entering variable with the search
+// direction, the Phase I objective. Used to check that every such value was computed without
+// rounding, and to compare the basis sequence with the model.
+#[derive(Debug, Clone, Default)]
+pub struct LpTraceEvent {
+    pub phase: u8,
+    pub basic: Vec<usize>,
+    pub nonbasic: Vec<usize>,
+    pub x_basic: Vec<f64>,
+    pub reduced: Vec<f64>,
+    pub entering: Option<usize>,
+    pub direction: Vec<f64>,
+    pub objective: Option<f64>,
+}
+thread_local! {
+    static LP_TRACE: std::cell::RefCell<Option<Vec<LpTraceEvent>>> = const { std::cell::RefCell::new(None) };
+}
+pub fn lp_trace_start() { LP_TRACE.with(|c| *c.borrow_mut() = Some(Vec::new())); }
+pub fn lp_trace_take() -> Vec<LpTraceEvent> { LP_TRACE.with(|c| c.borrow_mut().take().unwrap_or_default()) }
+pub fn lp_trace_event(phase: u8, basic: &[usize], nonbasic: &[usize]) {
+    LP_TRACE.with(|c| if let Some(v) = c.borrow_mut().as_mut() {
+        v.push(LpTraceEvent { phase, basic: basic.to_vec(), nonbasic: nonbasic.to_vec(), ..Default::default() });
+    });
+}
+/// `x` is indexed by variable (what `Basis::solve_basic` returns)
+pub fn lp_trace_x(x: &[f64]) {
+    LP_TRACE.with(|c| if let Some(e) = c.borrow_mut().as_mut().and_then(|v| v.last_mut()) {
+        e.x_basic = e.basic.iter().map(|&i| x[i]).collect();
+    });
+}
+pub fn lp_trace_reduced(rc: &[f64]) {
+    LP_TRACE.with(|c| if let Some(e) = c.borrow_mut().as_mut().and_then(|v| v.last_mut()) { e.reduced = rc.to_vec(); });
+}
+pub fn lp_trace_direction(entering: usize, d: &[f64]) {
+    LP_TRACE.with(|c| if let Some(e) = c.borrow_mut().as_mut().and_then(|v| v.last_mut()) { e.entering = Some(entering); e.direction = d.to_vec(); });
+}
+pub fn lp_trace_objective(obj: f64) {
+    LP_TRACE.with(|c| if let Some(e) = c.borrow_mut().as_mut().and_then(|v| v.last_mut()) { e.objective = Some(obj); });
+}
